@@ -2,13 +2,16 @@
 
 Always-on search on the real code: programs of the documented subset (systematic slice: every
 operator x ordered width pair from {2,3,4} x operand kinds var/var, var/const, const/var, shifts,
-if-expressions, every statement form / builtin / container type once; then random mixed-width
-expressions and statement programs) are compiled with the real `qlassf(src, to_compile=False)` under
-defaultOptimizer AND fastOptimizer; `qf.expressions` is evaluated on ALL argument assignments by the
+if-expressions, every statement form / builtin / container type once; if / if-else / elif statements
+whose test reads a variable that a branch re-assigns - 21 test forms x 7 placements + 20 hand-written
+latch / countdown / chain programs; then random mixed-width expressions, statement programs and
+random members of the re-assigned-test class) are compiled with the real
+`qlassf(src, to_compile=False)` under defaultOptimizer AND fastOptimizer; `qf.expressions` is evaluated on ALL argument assignments by the
 harness' own evaluator (`bexp.eval_json`).  Oracle, independent of qlasskit: `harness/pysem.py`
 interprets the *source text* under exact python semantics (Sem) and the documented fixed-width
-semantics (SemW).  A row is a failing input when the code's return bits differ from Sem although no
-intermediate left the range of its type, or differ on the low bits that wrap-around arithmetic
+semantics (SemW); its exact value is cross-checked on every row against CPython executing the same
+source text (annotations stripped) wherever the program is plain python.  A row is a failing input
+when the code's return bits differ from Sem although no intermediate left the range of its type, or differ on the low bits that wrap-around arithmetic
 determines.  Programs of the malformed stream must raise.
 
 Correspondence: the syntax tree the real `ast2ast` hands to `translate_ast` goes to the Lean model
@@ -291,6 +294,7 @@ def systematic():
         out.append(("form:" + name, src))
     for i, src in enumerate(progs.STATEMENT_PROGRAMS):
         out.append(("form:st", src))
+    out += ifself_programs()
     return out
 
 
@@ -352,6 +356,194 @@ FORMS = [
     ("folded-const", "def fm_50(a: Qint[2]) -> Qint[4]:\n\treturn (a ^ a) * a + (a >> 3) * 3"),
     ("else-if", "def fm_47(a: Qint[2], c: bool, d: bool) -> Qint[2]:\n\tr = a\n\tif c:\n\t\tr = 1\n\telse:\n\t\tr = 2\n\treturn r + (1 if d else 0)"),
 ]
+
+# ---- if statements whose test reads a variable that a branch re-assigns ---------------------------------
+# Python evaluates the test of an `if` once, then runs every statement of the chosen branch: a branch that
+# re-assigns a variable its own test reads keeps running, and the else branch stays not-run.  ast2ast turns
+# the statement into guarded assignments; the guard must be the *value the test had*, not the test
+# re-read after the re-assignment.  Every program returns (r, s, <the re-assigned variable>), so nothing
+# the branches compute can cancel out; all values are Qint[2] / bool (nothing widens, every bit of a
+# wrap-around sum is claimed).
+# (test, variable the test reads and a branch re-assigns, its new value in the if branch, in the else branch)
+IFSELF_TESTS = [
+    # bool variable, bare / negated / compound tests
+    ("a", "a", "False", "b"),
+    ("a", "a", "not a", "a ^ b"),               # self-referencing: through ast2ast's __a temporary
+    ("a", "a", "a and b", "not b"),
+    ("not a", "a", "True", "b"),
+    ("a and b", "b", "not b", "a"),
+    ("a and b", "a", "False", "not a"),
+    ("a or b", "a", "not a", "True"),
+    ("a ^ b", "b", "a", "not b"),
+    ("a == b", "a", "not b", "b"),
+    ("a and x > y", "a", "x == y", "not a"),
+    ("b if a else x[0]", "a", "not a", "b"),
+    ("all([a, b])", "b", "False", "True"),
+    # Qint variable
+    ("x > y", "x", "x - y", "y"),
+    ("x > y", "y", "x", "y - x"),
+    ("x == y", "y", "y ^ 1", "x"),
+    ("x != 0", "x", "x - 1", "y"),
+    ("x[0]", "x", "x >> 1", "x ^ 1"),
+    ("(x ^ y) > 1", "y", "x", "y ^ x"),
+    ("x < 2 and y < 2", "y", "y + 2", "y & 1"),
+    ("a and x > y", "x", "y", "x >> 1"),
+    ("a or x[1]", "x", "x & 1", "x | 2"),
+]
+IFSELF_SIG = "a: bool, b: bool, x: Qint[2], y: Qint[2]"
+
+
+def ifself_src(name, test, v, new_t, new_f, kind, vt):
+    """one program of the class; kind: body | else | both | loop | loop-both | after | elif"""
+    ret = f"Tuple[Qint[2], Qint[2], {vt}]"
+    head = f"def {name}({IFSELF_SIG}) -> {ret}:\n\tr = y\n\ts = x\n"
+    tail = f"\treturn (r, s, {v})"
+    if kind == "body":        # the re-assignment first, several assignments after it
+        blk = f"\tif {test}:\n\t\t{v} = {new_t}\n\t\tr = r + 1\n\t\ts = s ^ r\n"
+    elif kind == "else":      # the else branch re-assigns: its guard is still "the test was false"
+        blk = f"\tif {test}:\n\t\tr = r + 1\n\telse:\n\t\t{v} = {new_f}\n\t\tr = r + 2\n\t\ts = s ^ r\n"
+    elif kind == "both":
+        blk = (f"\tif {test}:\n\t\t{v} = {new_t}\n\t\tr = r + 1\n\telse:\n\t\t{v} = {new_f}\n\t\ts = s + 1\n"
+               f"\t\tr = r ^ s\n")
+    elif kind == "after":     # first branch re-assigns: the else branch must still be skipped
+        blk = f"\tif {test}:\n\t\t{v} = {new_t}\n\telse:\n\t\tr = r + 1\n\t\ts = s ^ r\n"
+    elif kind == "loop":      # nested in an unrolled loop: every iteration evaluates the test afresh, once
+        blk = f"\tfor i in range(2):\n\t\tif {test}:\n\t\t\t{v} = {new_t}\n\t\t\tr = r + 1\n\t\t\ts = s ^ r\n\t\tr = r + i\n"
+    elif kind == "loop-both":
+        blk = (f"\tfor i in range(2):\n\t\tif {test}:\n\t\t\t{v} = {new_t}\n\t\t\tr += 1\n\t\telse:\n\t\t\t{v} = {new_f}\n"
+               f"\t\t\ts += r\n\t\t\tr ^= 2\n")
+    elif kind == "elif":      # the second test is evaluated only when the first was false
+        blk = (f"\tif {test}:\n\t\t{v} = {new_t}\n\t\tr = r + 1\n\telif not ({test}):\n\t\t{v} = {new_f}\n\t\tr = r + 2\n"
+               f"\telse:\n\t\tr = r + 3\n\t\ts = 0\n")
+    else:
+        raise ValueError(kind)
+    return head + blk + tail
+
+
+IFSELF_KINDS = ["body", "else", "both", "after", "loop", "loop-both", "elif"]
+
+# hand-written members of the class: latch flags, several re-assignments, augmented assignment, chains
+IFSELF_FORMS = [
+    ("latch", "def ifl_0(x: Qint[2], y: Qint[2]) -> Qint[4]:\n\tfirst = x > y\n\tacc = 0\n\tfor i in range(2):\n"
+              "\t\tif first:\n\t\t\tfirst = False\n\t\t\tacc = acc + 5\n\t\tacc = acc + 1\n\treturn acc"),
+    ("latch", "def ifl_1(x: Qint[3]) -> Tuple[Qint[2], bool]:\n\tdone = False\n\tn = 0\n\tfor i in range(3):\n"
+              "\t\tif not done:\n\t\t\tdone = x[i]\n\t\t\tn = n + 1\n\treturn (n, done)"),
+    ("latch", "def ifl_2(a: bool, t: Tuple[bool, bool, bool]) -> Tuple[Qint[2], bool]:\n\tgo = a\n\tn = 0\n\tfor v in t:\n"
+              "\t\tif go:\n\t\t\tgo = v\n\t\t\tn += 1\n\treturn (n, go)"),
+    ("latch", "def ifl_3(a: bool, b: bool, c: bool) -> Tuple[bool, bool, Qint[2]]:\n\tn = 0\n\tfor i in range(2):\n"
+              "\t\tif a:\n\t\t\ta = b\n\t\t\tb = c\n\t\t\tn = n + 1\n\t\telse:\n\t\t\ta = c\n\t\t\tn = n + 2\n\treturn (a, b, n)"),
+    ("countdown", "def ifl_4(x: Qint[2]) -> Tuple[Qint[2], Qint[2]]:\n\tr = 0\n\tfor i in range(3):\n\t\tif x > 0:\n"
+                  "\t\t\tx -= 1\n\t\t\tr += 1\n\treturn (x, r)"),
+    ("countdown", "def ifl_5(x: Qint[2], y: Qint[2]) -> Tuple[Qint[2], Qint[2], Qint[2]]:\n\tq = 0\n\tfor i in range(3):\n"
+                  "\t\tif x >= y and y > 0:\n\t\t\tx = x - y\n\t\t\tq = q + 1\n\treturn (x, y, q)"),
+    ("gcd-step", "def ifl_6(x: Qint[2], y: Qint[2]) -> Tuple[Qint[2], Qint[2]]:\n\tfor i in range(2):\n\t\tif x > y:\n"
+                 "\t\t\tx = x - y\n\t\telse:\n\t\t\ty = y - x\n\treturn (x, y)"),
+    ("swap", "def ifl_8(x: Qint[2], y: Qint[2]) -> Tuple[Qint[2], Qint[2]]:\n\tt = x\n\tif x > y:\n\t\tt = x\n\t\tx = y\n"
+             "\t\ty = t\n\treturn (x, y)"),
+    ("twice", "def ifl_9(a: bool, b: bool) -> Tuple[bool, bool, Qint[2]]:\n\tn = 0\n\tif a:\n\t\ta = False\n\t\tn = n + 1\n"
+              "\t\ta = b\n\t\tn = n + 1\n\t\tb = not a\n\t\tn = n + 1\n\treturn (a, b, n)"),
+    ("twice", "def ifl_10(a: bool, b: bool, x: Qint[2]) -> Tuple[bool, Qint[2]]:\n\tif a or b:\n\t\ta = False\n\t\tx = x + 1\n"
+              "\t\tb = False\n\t\tx = x + 1\n\tif a or b:\n\t\tx = 0\n\treturn (a or b, x)"),
+    ("sequence", "def ifl_11(a: bool, x: Qint[2]) -> Tuple[bool, Qint[2]]:\n\tif a:\n\t\ta = False\n\t\tx = x + 1\n\tif not a:\n"
+                 "\t\ta = True\n\t\tx = x + 2\n\tif a:\n\t\tx = x ^ 1\n\treturn (a, x)"),
+    ("elif-chain", "def ifl_12(x: Qint[2], y: Qint[2]) -> Tuple[Qint[2], Qint[2]]:\n\tr = 0\n\tif x > 2:\n\t\tx = 0\n\t\tr = 1\n"
+                   "\telif x > 1:\n\t\tx = 3\n\t\tr = 2\n\telif x > 0:\n\t\tx = 2\n\t\tr = 3\n\treturn (x, r)"),
+    ("elif-chain", "def ifl_13(a: bool, b: bool, x: Qint[2]) -> Tuple[bool, bool, Qint[2]]:\n\tif a:\n\t\ta = False\n\t\tb = True\n"
+                   "\t\tx = x + 1\n\telif b:\n\t\tb = False\n\t\ta = True\n\t\tx = x + 2\n\telse:\n\t\ta = True\n\t\tb = True\n"
+                   "\t\tx = x + 3\n\treturn (a, b, x)"),
+    ("else-if", "def ifl_14(a: bool, b: bool, x: Qint[2]) -> Tuple[bool, Qint[2]]:\n\tr = x\n\tif a:\n\t\tr = x + 1\n\telse:\n"
+                "\t\ta = b\n\t\tif a:\n\t\t\ta = False\n\t\t\tr = x + 2\n\t\tr = r + r\n\treturn (a, r)"),
+    ("ret-bool", "def ifl_15(a: bool, b: bool) -> bool:\n\tc = b\n\tif a:\n\t\ta = False\n\t\tc = not c\n\treturn c"),
+    ("ret-bool", "def ifl_16(a: bool, b: bool, c: bool) -> bool:\n\tr = c\n\tif a != b:\n\t\tb = a\n\t\tr = not r\n\telse:\n"
+                 "\t\ta = not a\n\t\tr = r and c\n\treturn r ^ (a == b)"),
+    ("ret-int", "def ifl_17(a: bool, b: Qint[2]) -> Qint[2]:\n\tc = b\n\tif a:\n\t\ta = False\n\t\tc = c + 1\n\treturn c"),
+    ("ret-int", "def ifl_18(a: bool, b: bool, x: Qint[2]) -> Qint[2]:\n\tr = x\n\tif a:\n\t\ta = a and b\n\t\tr = x + 2\n\telse:\n"
+                "\t\tr = x + 1\n\treturn r"),
+    ("wider", "def ifl_19(x: Qint[3], y: Qint[2]) -> Tuple[Qint[3], Qint[4]]:\n\tr = 8\n\tif x > y:\n\t\tx = x - y\n\t\tr = r + x\n"
+              "\t\tr = r - 1\n\treturn (x, r)"),
+    ("wider", "def ifl_20(x: Qint[4]) -> Tuple[Qint[4], Qint[2]]:\n\tn = 0\n\tfor i in range(3):\n\t\tif not x[0]:\n"
+              "\t\t\tx = x >> 1\n\t\t\tn = n + 1\n\treturn (x, n)"),
+]
+
+
+def ifself_programs():
+    out, k = [], 0
+    for test, v, nt, nf in IFSELF_TESTS:
+        vt = "bool" if v in ("a", "b") else "Qint[2]"
+        for kind in IFSELF_KINDS:
+            out.append((f"ifself:{kind}", ifself_src(f"ifs_{k}", test, v, nt, nf, kind, vt)))
+            k += 1
+    for name, src in IFSELF_FORMS:
+        out.append(("ifself:" + name, src))
+    return out
+
+
+def gen_ifself_program(rng, k):
+    """random member of the class: a random test over a, b, x, y; one of the variables it reads is
+    re-assigned in a random place of the if branch and / or the else branch, among other assignments;
+    optionally inside an unrolled loop and followed by a second if that reads the variable again"""
+    batom = ["a", "b", "(not a)", "(not b)"]
+    iatom = ["(x > y)", "(x == y)", "(x < y)", "(x != 0)", "(y > 1)", "x[0]", "y[1]", "((x ^ y) == 3)", "(x >= 2)"]
+
+    def test_expr(depth):
+        if depth <= 0 or rng.random() < 0.3:
+            return rng.choice(batom + iatom)
+        op = rng.choice([" and ", " or ", " ^ ", " == ", " != "])
+        return "(" + test_expr(depth - 1) + op + test_expr(depth - 1) + ")"
+
+    def new_value(v):
+        if v in ("a", "b"):
+            return rng.choice(["False", "True", f"(not {v})", "(a and b)", "(a or b)", "(a ^ b)", "(x > y)", "x[1]",
+                               "a" if v == "b" else "b"])
+        o = "y" if v == "x" else "x"
+        return rng.choice([o, f"({v} - 1)", f"({v} + 1)", f"({v} >> 1)", f"({v} ^ {o})", f"({v} & {o})", f"(~{v})",
+                           f"({o} - {v})", "0", "3", f"({v} << 1)"])
+
+    other = ["r = r + 1", "s = s ^ r", "r += s", "s = s + 1", "r = r ^ 2", "s -= 1", "r = s", "s = r + s", "r = r + i"]
+
+    while True:
+        test = test_expr(rng.randint(0, 2))
+        read = [v for v in ("a", "b", "x", "y") if v in test.replace("and", "").replace("not", "")]
+        if read:
+            break
+    v = rng.choice(read)
+    vt = "bool" if v in ("a", "b") else "Qint[2]"
+    in_loop = rng.random() < 0.4
+    ind = "\t\t" if in_loop else "\t"
+
+    def branch(reassign):
+        n = rng.randint(1, 3)
+        stmts = [rng.choice(other) for _ in range(n)]
+        if reassign:
+            stmts.insert(rng.randint(0, min(1, len(stmts))), f"{v} = {new_value(v)}")
+            if rng.random() < 0.25:
+                w = rng.choice([z for z in read])
+                stmts.insert(rng.randint(1, len(stmts)), f"{w} = {new_value(w)}")
+        if not in_loop:
+            stmts = [z for z in stmts if z != "r = r + i"] or ["r = r + 1"]
+        return "".join(f"{ind}\t{z}\n" for z in stmts)
+
+    shape = rng.choice(["body", "body", "else", "both", "both", "elif"])
+    blk = f"{ind}if {test}:\n" + branch(shape in ("body", "both", "elif"))
+    if shape == "elif":
+        blk += f"{ind}elif {test_expr(1)}:\n" + branch(True)
+        if rng.random() < 0.5:
+            blk += f"{ind}else:\n" + branch(rng.random() < 0.5)
+    elif shape != "body" or rng.random() < 0.3:
+        blk += f"{ind}else:\n" + branch(shape in ("else", "both"))
+    if rng.random() < 0.35:
+        blk += f"{ind}if {rng.choice([test, test_expr(1)])}:\n{ind}\tr = r + 2\n{ind}\t{v} = {new_value(v)}\n{ind}\ts = s + r\n"
+    if in_loop:
+        blk = f"\tfor i in range({rng.randint(1, 3)}):\n" + blk
+    # a second re-assigned variable may be any of the four: return all that can have changed
+    outs, tys = ["r", "s", v], ["Qint[2]", "Qint[2]", vt]
+    for w in read:
+        if w != v and f"{w} = " in blk:
+            outs.append(w)
+            tys.append("bool" if w in ("a", "b") else "Qint[2]")
+    return (f"def fnx_{k}({IFSELF_SIG}) -> Tuple[{', '.join(tys)}]:\n\tr = y\n\ts = x\n" + blk
+            + f"\treturn ({', '.join(outs)})")
+
 
 # programs outside the documented subset: the library must raise
 MALFORMED = [
@@ -481,6 +673,7 @@ class Case:
         self.timeout = False
         self.expected = None    # per row list of expected bits (None = unclaimed)
         self.exact = None       # per row (exact python value, k) of the oracle for bool / Qint returns, else None
+        self.cpython_rows = 0   # rows on which the oracle's exact value was cross-checked against CPython itself
 
 
 def observe(lib, tag, src, profiles=("fast", "default"), budget=15):
@@ -576,6 +769,16 @@ def judge(c, quirks=()):
         for e_, w_ in zip(exp, wr):
             if e_ is not None and e_ != w_:
                 raise RuntimeError(f"oracle inconsistency (Sem vs SemW) on {c.src!r} row {k}")
+        # second self-check: the exact value of the hand-written statement semantics is the value CPython
+        # itself returns for the source text (where the program is plain python over ints / bools / tuples)
+        if not quirks:
+            py = prog.cpython(row)
+            if py is not None:
+                c.cpython_rows += 1
+                mine = [x.ex for x in pysem.flatten(v)]
+                if len(py) != len(mine) or any(int(p_) != int(m_) for p_, m_ in zip(py, mine)):
+                    raise RuntimeError(f"oracle inconsistency (pysem vs CPython) on {c.src!r} row {k}: "
+                                       f"pysem {mine} CPython {py}")
         c.expected.append(exp)
         c.exact.append((int(v.ex), v.k) if v.items is None and v.ty[0] in ("bool", "qint") else None)
         got = c.rows[k]
@@ -1014,7 +1217,7 @@ def run(ctx: Ctx) -> Result:
                 "argument assignment; non-trivial = accepted by the library and given a meaning by the oracle")
     rng = ctx.rng
     stats = dict(outside_model=0, model_compared=0, rejected=0, oracle_undefined=0, malformed_rejected=0,
-                 malformed_accepted_but_right=0)
+                 malformed_accepted_but_right=0, cpython_rows=0)
     stream = list(systematic())
     stream += [("malformed:" + n, s) for n, s in MALFORMED]
     n_int = 700 if ctx.thorough else 130
@@ -1026,12 +1229,16 @@ def run(ctx: Ctx) -> Result:
         stream.append(("rand:bool", progs.gen_bool_program(rng, k)))
     for k in range(n_stmt):
         stream.append(("rand:stmt", gen_stmt_program(rng, k)))
+    # drawn last: the streams above see the same random numbers as before this one existed
+    for k in range(150 if ctx.thorough else 24):
+        stream.append(("rand:ifself", gen_ifself_program(rng, k)))
     with Lib() as lib:
         run_arith(ctx, lib, res, stats)
         batch = []
         for tag, src in stream:
             c = observe(lib, tag, src, budget=6 if ctx.thorough else 5)
             res.count(dict(src=src), nontrivial=nontrivial(c), bucket=tag.split(":")[0] + ":" + tag.split(":")[1][:12])
+            stats["cpython_rows"] += c.cpython_rows
             batch.append(c)
             if len(batch) >= 400:
                 settle(ctx, res, batch, stats)
